@@ -134,7 +134,7 @@ func (g Group) ValidateClosable() error {
 // ValidatePausable provides error response if group is not pausable
 func (g Group) ValidatePausable() error {
 	switch g.State {
-	case GroupClosed:
+	case GroupClosed, GroupInsufficientFunds:
 		return ErrGroupClosed
 	case GroupPaused:
 		return ErrGroupPaused
@@ -146,7 +146,7 @@ func (g Group) ValidatePausable() error {
 // ValidatePausable provides error response if group is not pausable
 func (g Group) ValidateStartable() error {
 	switch g.State {
-	case GroupClosed:
+	case GroupClosed, GroupInsufficientFunds:
 		return ErrGroupClosed
 	case GroupOpen:
 		return ErrGroupOpen
